@@ -46,8 +46,14 @@ func (t Threshold) IsValid([]byte) error {
 	return nil
 }
 
+// Threshold returns the least number of votes which is at least quorum*t/100.
+// NOTE threshold has one decimal place (see String()); it is scaled to tenths
+// and the ceiling is computed with integer arithmetic, floating-point
+// multiplication rounds some products up (e.g. 25 * 0.56 > 14).
 func (t Threshold) Threshold(quorum uint) uint {
-	return uint(math.Ceil(float64(quorum) * (t / MaxThreshold).Float64()))
+	tenths := uint64(math.Round(t.Float64() * 10))
+
+	return uint((uint64(quorum)*tenths + 999) / 1000)
 }
 
 func (t Threshold) VoteResult(quorum uint, set []string) (result VoteResult, key string) {
